@@ -154,6 +154,8 @@ def renderBSeg (s : List Char) : BSeg → List Char
 
 def stepSites (w : List String) : Option String :=
   match w with
+  | ["gr", flags] =>
+    some (showO (fun (n : Nat) => "ok " ++ toString n) (getRows (if flags = "-" then [] else flags.toList.map (· == '1'))))
   | ["bs", h] =>
     match unhexS h with
     | some s => some (showO (fun (segs : List BSeg) => "ok " ++ hexS (segs.flatMap (renderBSeg s))) (bstrUnmarshal s))
